@@ -34,12 +34,12 @@ var Prop = &engine.Prop{
 		"keys are comparable Hashed2Int values (mux.Bytes cannot be a Go map key)",
 		"the value a callback returns is the value the store now holds",
 	},
-	ShardsQuick: 8, ShardsThorough: 16,
+	ShardsQuick: 8, ShardsThorough: 32,
 	Setup: func(c *engine.Ctx) { Q = engine.NewQuiescer() },
 	Kinds: []engine.Kind{
-		{Name: "stream", Quick: 6000, Thorough: 240000, Fn: streamCase},
-		{Name: "gate", Quick: 1500, Thorough: 60000, Fn: gateCase},
-		{Name: "stress", Quick: 24, Thorough: 600, Repeat: 20, Fn: stressCase},
+		{Name: "stream", Quick: 6000, Thorough: 480000, Fn: streamCase},
+		{Name: "gate", Quick: 1500, Thorough: 120000, Fn: gateCase},
+		{Name: "stress", Quick: 24, Thorough: 1200, Repeat: 20, Fn: stressCase},
 	},
 	Floors: map[string]int64{
 		"coherence_checks_on_cached_keys": 2000,
